@@ -32,6 +32,9 @@ type Config struct {
 
 type generator struct {
 	schema *ast.Schema
+
+	// references to nested schemas being inlined: they can lead back to themselves
+	inlining map[string]struct{}
 }
 
 func GenerateAST(ctx context.Context, oapi *openapi3.T, cfg Config) (*ast.Schema, error) {
@@ -42,7 +45,8 @@ func GenerateAST(ctx context.Context, oapi *openapi3.T, cfg Config) (*ast.Schema
 	}
 
 	g := &generator{
-		schema: ast.NewSchema(cfg.Package, cfg.SchemaMetadata),
+		schema:   ast.NewSchema(cfg.Package, cfg.SchemaMetadata),
+		inlining: make(map[string]struct{}),
 	}
 
 	if oapi.Components == nil {
@@ -131,9 +135,39 @@ func (g *generator) walkDefinitions(schema *openapi3.Schema) (ast.Type, error) {
 }
 
 func (g *generator) walkRef(schema *openapi3.SchemaRef) (ast.Type, error) {
+	// only the direct entries of `components.schemas` are declared as objects: a reference
+	// that goes deeper (`#/components/schemas/A/properties/b`) designates a schema that
+	// has no name of its own. What it points to is inlined.
+	if !refersToComponentSchema(schema.Ref) {
+		if schema.Value == nil {
+			return ast.Type{}, fmt.Errorf("reference '%s' could not be resolved", schema.Ref)
+		}
+
+		if _, found := g.inlining[schema.Ref]; found {
+			return ast.Type{}, fmt.Errorf("reference '%s' refers to itself", schema.Ref)
+		}
+		g.inlining[schema.Ref] = struct{}{}
+		defer delete(g.inlining, schema.Ref)
+
+		return g.walkDefinitions(schema.Value)
+	}
+
 	pkg, referredKindName := g.getRefName(schema.Ref)
 
 	return ast.NewRef(pkg, referredKindName), nil
+}
+
+// refersToComponentSchema tells whether a reference designates a direct entry
+// of `components.schemas`, in this document or in another one.
+func refersToComponentSchema(ref string) bool {
+	_, fragment, found := strings.Cut(ref, "#")
+	if !found {
+		return true
+	}
+
+	name, isComponent := strings.CutPrefix(fragment, "/components/schemas/")
+
+	return isComponent && name != "" && !strings.Contains(name, "/")
 }
 
 func (g *generator) walkObject(schema *openapi3.Schema) (ast.Type, error) {
